@@ -29,6 +29,7 @@ var (
 	flagConfig  = flag.String("config", "amd64", "configuration for -rule")
 	flagVerbose = flag.Bool("v", false, "print every obligation")
 	flagNoCtl   = flag.Bool("nocontrols", false, "skip the control corpus")
+	flagCtl     = flag.String("control", "", "run one control of the corpus and print the new violations (debugging)")
 	flagMan     = flag.Bool("manifest", false, "print MANIFEST.json for the claimed properties")
 )
 
@@ -53,6 +54,8 @@ func main() {
 		case *flagMan:
 			writeManifest()
 			code = 0
+		case *flagCtl != "":
+			code = debugControl(*flagCtl)
 		case *flagReplay != "":
 			code = replay(*flagReplay)
 		case *flagRule != "":
@@ -120,7 +123,7 @@ func runRule(name, cfg string) int {
 		if o.Verdict == ob.Violation {
 			bad++
 		}
-		if *flagVerbose || o.Verdict != ob.OK {
+		if *flagVerbose || o.Verdict == ob.Violation {
 			fmt.Println(o)
 		}
 	}
@@ -240,8 +243,8 @@ func runProp(id, tier string) int {
 	for _, l := range lines {
 		fmt.Println(l)
 	}
-	fmt.Printf("%s tier=%s: %d obligations over %v, %d discharged, %d known findings, %d violations; controls fired %d/%d (skipped %d); %.1fs\n",
-		id, tier, obligations, cfgNames, nOK, nKnown, nViol, ctl.Fired, ctl.Run, ctl.Skipped, time.Since(start).Seconds())
+	fmt.Printf("%s tier=%s: %d obligations over %v, %d discharged, %d known findings, %d violations; controls: %d run, %d fired, %d negative silent, %d skipped; %.1fs\n",
+		id, tier, obligations, cfgNames, nOK, nKnown, nViol, ctl.Run, ctl.Fired, ctl.Silent, ctl.Skipped, time.Since(start).Seconds())
 	if ctl.Blind > 0 {
 		model.Fatal("%d control(s) applied but did not fire: %v", ctl.Blind, ctl.BlindNames)
 	}
